@@ -27,9 +27,14 @@ CLAIM = dict(
     "(baseline_zero, cleaning_filter_nonneg); the stages present are called once each in the documented order, swapped "
     "when configured (stage_order), each on the output of the previous one (stage_inputs), the result being "
     "model(restoration(balancing(cleaning(reduction(difference))))) (result_eq_composition); positive+negative=absolute, "
-    "positive-negative=plain; probe and baseline untouched whatever a stage does to its input; kind rule. The skeleton is "
+    "positive-negative=plain; probe and baseline untouched whatever a stage does to its input; kind rule; integer images: "
+    "after the promotion the code performs (value / (2^bits - 1)) every difference option equals the exact integer "
+    "difference scaled, within [-1, 1] resp. [0, 1] - no wrap-around (diff_no_wrap); the cleaning filter is the running "
+    "maximum (from 0) of the extra baselines' reduced differences, non-negative, dominating each of them and attained, so "
+    "every extra baseline is cleaned to zero (cleaning_filter_is_running_max, extra_baseline_cleaned_zero). The skeleton is "
     "tied to the code by running the real class with instrumented real stage objects against the model (exact, dyadic "
-    "float images). Conversion of integer images (img_as(float)), skimage.compare_images, TVD, cv2 gray reduction are "
+    "float images); the promotion statement is tied by comparing the real analysis on uint8 / uint16 images with the model's "
+    "exact rationals (float round-off measured, < 1e-12 required). skimage.compare_images, TVD, cv2 gray reduction are "
     "outside the model: observed by the oracle (baseline -> 0 exactly, no wrap-around, 0-preservation of the stock stages).",
     note="stage objects are parameters of the model; dtype promotion and library numerics observed only",
     technique="Lean 4 proof (list induction, case analysis over configurations, ordered-field arithmetic) + differential "
@@ -433,6 +438,55 @@ def oracle(ctx, d):
             ctx.fail(f"C13:negative-part-of-clipped-difference(dtype={case['dtype']})", "clipped / absolute difference has negative entries", case)
 
 
+def promotion_tie(ctx, d):
+    """integer images: the difference the real analysis returns (no stages) against the model's exact promoted difference
+    (value / (2^bits - 1), then the option); float round-off measured, anything larger is a failing input"""
+    from fractions import Fraction
+
+    lines, cases = [], []
+    for n in range(ctx.pick(120, 1200)):
+        bits = ctx.rng.choice([8, 16])
+        dtype = np.uint8 if bits == 8 else np.uint16
+        opt = ctx.rng.choice(OPTS)
+        shape = (ctx.rng.randint(1, 4), ctx.rng.randint(1, 5))
+        r = np.random.RandomState(ctx.rng.randrange(2 ** 31))
+        hi = 2 ** bits
+        probe = r.randint(0, hi, size=shape).astype(dtype)
+        base = r.randint(0, hi, size=shape).astype(dtype)
+        if ctx.rng.random() < 0.3:  # extremes: the cases that wrap without promotion
+            probe.flat[0], base.flat[0] = 0, hi - 1
+            probe.flat[-1], base.flat[-1] = hi - 1, 0
+        lines.append(f"diffint {bits} {opt} {probe.size} " + " ".join(map(str, probe.ravel().tolist())) + f" {base.size} "
+                     + " ".join(map(str, base.ravel().tolist())))
+        cases.append((bits, opt, probe, base))
+    got = ctx.model(lines)
+    worst = 0.0
+    for line, out, (bits, opt, probe, base) in zip(lines, got, cases):
+        ctx.count(("promotion", line))
+        an = call(lambda: d.ConcentrationAnalysis(d.ScalarImage(base, dimensions=[1.0, 1.0]), **{"diff option": opt}))
+        res = an if isinstance(an, Raised) else call(lambda: an(d.ScalarImage(probe, dimensions=[1.0, 1.0])))
+        case = dict(bits=bits, opt=opt, probe=probe.tolist(), base=base.tolist())
+        if isinstance(res, Raised):
+            ctx.fail(f"C13:call-raises({type(res.exc).__name__},dtype=uint{bits},kind=ScalarImage)", f"analysis raises {res.exc!r}", case)
+            continue
+        try:
+            exact = [Fraction(t) for t in out.split()]
+        except (ValueError, ZeroDivisionError):
+            ctx.mark("TIE-BROKEN", {"driver_output": out[:200], "request": line[:200]})
+            continue
+        vals = np.asarray(res.img, dtype=np.float64).ravel()
+        if len(exact) != vals.size:
+            ctx.fail(f"C13:promotion(uint{bits},{opt}):shape", "result has another number of entries than the images", case)
+            continue
+        dev = max(abs(Fraction(float(v)) - e) for v, e in zip(vals, exact))
+        worst = max(worst, float(dev))
+        if dev > Fraction(1, 10 ** 12):
+            ctx.fail(f"C13:promotion(uint{bits},{opt}):differs-from-promoted-integer-difference",
+                     f"difference of integer images deviates by {float(dev):.3g} from (option of) (probe - baseline) / {2 ** bits - 1} "
+                     "(wrap-around or missing promotion)", dict(case, max_dev=float(dev), observed=vals.tolist()))
+    ctx.cov["promotion_max_float_error"] = worst
+
+
 def replay(data):
     print("property C13 replay")
     for k in ("signature", "what"):
@@ -446,6 +500,7 @@ def run(ctx):
 
     ctx.prove("C13")
     correspondence(ctx, d)
+    promotion_tie(ctx, d)
     oracle(ctx, d)
     ctx.cov["rule"] = "distinct = request line (correspondence) / (clause, diff option, dtype, kind, shape, #extra baselines, stage configuration)"
     ctx.assumptions += [
